@@ -400,14 +400,16 @@ package schema
 
 //@ spec mapKey(data any, j int) any = rv_iface(rv_key(rv_of(data), j))
 //@ spec mapVal(data any, j int) any = rv_iface(rv_mapval(rv_of(data), rv_iface(rv_key(rv_of(data), j))))
+// the value of the j-th entry as an iterator yields it (equal to mapVal unless the key is one no lookup finds: NaN)
+//@ spec mapEntryVal(data any, j int) any = rv_iface(rv_entryval(rv_of(data), j))
 
 //@ func MapSchema.Validate(m, data) -> err
 //@   ensures (err == nil) == (kindOf(data) == KindMap && sizeOK(m.MinValue, m.MaxValue, listLen(data)) && (forall j int :: 0 <= j && j < listLen(data) ==> validOK(m.KeysValue, mapKey(data, j)) && validOK(m.ValuesValue, mapVal(data, j))))
 //@   loop 1 invariant forall j int :: 0 <= j && j <= idx ==> validOK(m.KeysValue, mapKey(data, j)) && validOK(m.ValuesValue, mapVal(data, j))
 
 //@ func MapSchema.Unserialize(m, data) -> res, err
-//@   ensures (err == nil) == (kindOf(data) == KindMap && sizeOK(m.MinValue, m.MaxValue, listLen(data)) && (forall j int :: 0 <= j && j < listLen(data) ==> unserOK(m.KeysValue, mapKey(data, j)) && unserOK(m.ValuesValue, mapVal(data, j))))
-//@   loop 1 invariant forall j int :: 0 <= j && j <= idx ==> unserOK(m.KeysValue, mapKey(data, j)) && unserOK(m.ValuesValue, mapVal(data, j))
+//@   ensures (err == nil) == (kindOf(data) == KindMap && sizeOK(m.MinValue, m.MaxValue, listLen(data)) && (forall j int :: 0 <= j && j < listLen(data) ==> unserOK(m.KeysValue, mapKey(data, j)) && unserOK(m.ValuesValue, mapEntryVal(data, j))))
+//@   loop 1 invariant forall j int :: 0 <= j && j <= idx ==> unserOK(m.KeysValue, mapKey(data, j)) && unserOK(m.ValuesValue, mapEntryVal(data, j))
 
 //@ func MapSchema.Serialize(m, data) -> res, err
 //@   ensures err == nil ==> kindOf(data) == KindMap && sizeOK(m.MinValue, m.MaxValue, listLen(data)) && (forall j int :: 0 <= j && j < listLen(data) ==> validOK(m.KeysValue, mapKey(data, j)) && validOK(m.ValuesValue, mapVal(data, j)) && serOK(m.KeysValue, mapKey(data, j)) && serOK(m.ValuesValue, mapVal(data, j)))
@@ -716,7 +718,7 @@ package schema
 //@   checks err != nil && kindOf(data) == KindMap && sizeOK(m.MinValue, m.MaxValue, listLen(data)) ==> (!validOK(m.KeysValue, mapKey(data, $idx1 + 1)) ? err == addedSeg(validErr(m.KeysValue, mapKey(data, $idx1 + 1)), sprintf1("{%v}", any(mapKeyRV(data, $idx1 + 1)))) : err == addedSeg(validErr(m.ValuesValue, mapVal(data, $idx1 + 1)), sprintf1("[%v]", any(mapKeyRV(data, $idx1 + 1)))))
 //@   checks err != nil && !(kindOf(data) == KindMap && sizeOK(m.MinValue, m.MaxValue, listLen(data))) ==> leafCE(err)
 //@ func MapSchema.Unserialize(m, data) -> res, err
-//@   checks err != nil && kindOf(data) == KindMap && sizeOK(m.MinValue, m.MaxValue, listLen(data)) ==> (!unserOK(m.KeysValue, mapKey(data, $idx1 + 1)) ? err == addedSeg(unserErr(m.KeysValue, mapKey(data, $idx1 + 1)), sprintf1("{%v}", mapKey(data, $idx1 + 1))) : err == addedSeg(unserErr(m.ValuesValue, mapVal(data, $idx1 + 1)), sprintf1("[%v]", mapKey(data, $idx1 + 1))))
+//@   checks err != nil && kindOf(data) == KindMap && sizeOK(m.MinValue, m.MaxValue, listLen(data)) ==> (!unserOK(m.KeysValue, mapKey(data, $idx1 + 1)) ? err == addedSeg(unserErr(m.KeysValue, mapKey(data, $idx1 + 1)), sprintf1("{%v}", mapKey(data, $idx1 + 1))) : err == addedSeg(unserErr(m.ValuesValue, mapEntryVal(data, $idx1 + 1)), sprintf1("[%v]", mapKey(data, $idx1 + 1))))
 //@   checks err != nil && !(kindOf(data) == KindMap && sizeOK(m.MinValue, m.MaxValue, listLen(data))) ==> leafCE(err)
 
 // ---------------------------------------------------------------------------------------------
